@@ -340,6 +340,14 @@ class Facts:
                 cs = [c for c in f.d['ctx'] if 'c' in c]
                 if cs: self._byclass.setdefault(cs[-1]['t'], []).append(f)
         return self._byclass.get(type_id, [])
+    def funcs_of_lambda(self, lck):
+        """call-operator instantiations of one closure class (generic lambdas have several)"""
+        if not hasattr(self, '_bylam'):
+            self._bylam = {}
+            for f in self.funcs:
+                cs = [c for c in f.d['ctx'] if 'c' in c]
+                if cs and 'lck' in cs[-1]: self._bylam.setdefault(cs[-1]['lck'], []).append(f)
+        return self._bylam.get(lck, [])
     def class_type(self, f):
         cs = [c for c in f.d['ctx'] if 'c' in c]
         return self.strs[cs[-1]['t']] if cs else None
